@@ -18,7 +18,7 @@ ASSUMPTIONS = [
     'reads show Tor\'s live value, so an option that was *assigned* is not mutated through a fresh attribute read before it is saved (excluded)',
     'a comma-list option may be sent once per element (SimTor keeps repeated keys as a list)',
 ]
-BOUNDS = {'quick': {'operations': 4, 'options': 'the option of the partition\'s kind + Nickname', 'list_ops': 'append/extend/insert/remove/pop/setitem'},
+BOUNDS = {'quick': {'types': 'c10_types: one option of each of 16 type names, one change + save', 'operations': 4, 'options': 'the option of the partition\'s kind + Nickname', 'list_ops': 'append/extend/insert/remove/pop/setitem'},
           'thorough': {'operations': 5}}
 OUTSIDE = ['hidden-service options', 'more than 5 operations', 'list operations that _ListWrapper does not wrap (del, clear, sort, +=): not in the statement']
 
@@ -243,3 +243,89 @@ def c10_history5(ki: int, o1: int, o2: int, o3: int, o4: int, o5: int, ival: int
     assume(o2 in allowed)
     ops = [o1, o2] + [api.pick_from(o, allowed) for o in (o3, o4, o5)]
     return _history(kind, ops, ival)
+
+
+# every type name Tor's config/names can announce that txtorcon has a parser class for
+ALL_TYPES = [('Boolean', '0', True, '1'), ('Boolean+Auto', 'auto', 1, '1'), ('Integer', '4', 7, '7'), ('SignedInteger', '-1', -5, '-5'),
+             ('Port', '9050', 9051, '9051'), ('TimeInterval', '60', 90, '90'), ('TimeMsecInterval', '1000', '2500', '2500'),
+             ('DataSize', '1024', 2048, '2048'), ('Float', '30.0', '1.5', '1.5'), ('Time', '2020-01-01', '2021-02-02', '2021-02-02'),
+             ('String', 'fixed', 'other', 'other'), ('Filename', '/a', '/b c', '/b c'),
+             ('CommaList', 'a,b', None, None), ('TimeIntervalCommaList', '0,60,3600', None, None), ('RouterList', 'x1,x2', None, None),
+             ('LineList', 'notice stdout', None, None)]
+
+
+def _one_type(ti, op):
+    """an option of the ti-th type: a scalar is assigned, a list is edited in place (op: 0 append, 1 insert, 2 setitem, 3 extend) or assigned
+    (op 4); then save()"""
+    from vlib.simtor import SimTor
+    from txtorcon.torconfig import TorConfig
+    typ, initial, newval, newtext = ALL_TYPES[ti]
+    listy = newval is None
+    p, t = fakes.new_protocol()
+    p.post_bootstrap = None
+    p._set_valid_events('CONF_CHANGED CIRC STREAM')
+    opts = {'TheOption': {'type': typ, 'values': [initial]}, 'Nickname': {'type': 'String', 'values': ['fixed']}}
+    tor = SimTor(p, t, opts, True)
+    tor.defaults = {}
+    try:
+        cfg = TorConfig(p)
+        out = fakes.Outcome(cfg.post_bootstrap)
+        for _ in range(50):
+            if not tor.pump():
+                break
+        if out.ok != 1:
+            return R('bootstrap-failed', '%s: %r', typ, out.exc())
+        n0 = len(tor.setconfs)
+        if listy:
+            sep = initial.split(',') if typ != 'LineList' else [initial]
+            item = {'CommaList': 'c', 'TimeIntervalCommaList': '7200', 'RouterList': 'x3', 'LineList': 'info file /x'}[typ]
+            lst = cfg.__getattr__('TheOption')
+            if op == 0:
+                lst.append(item)
+                want = sep + [item]
+            elif op == 1:
+                lst.insert(0, item)
+                want = [item] + sep
+            elif op == 2:
+                lst[0] = item
+                want = [item] + sep[1:]
+            elif op == 3:
+                lst.extend([item, item])
+                want = sep + [item, item]
+            else:
+                cfg.TheOption = [item]
+                want = [item]
+        else:
+            assume(op == 0)
+            cfg.TheOption = newval
+            want = [newtext]
+        if tor.pending():
+            return R('edit-wrote-to-tor-before-save', '%r', tor.pending())
+        if not cfg.needs_save():
+            return R('change-not-pending', '%s option: the edit was not noticed', typ)
+        o = fakes.Outcome(cfg.save())
+        tor.pump()
+        sent = tor.setconfs[n0:]
+        if len(sent) != 1 or sent[0] is None:
+            return R('save-did-not-send-exactly-one-wellformed-SETCONF', '%s: %r', typ, sent)
+        got = [v for k, v in sent[0] if k == 'TheOption']
+        if [k for k, _v in sent[0] if k != 'TheOption']:
+            return R('SETCONF-does-not-name-exactly-the-changes', '%r', sent[0])
+        if got != [str(x) for x in want] and got != [','.join(str(x) for x in want)]:
+            return R('SETCONF-value-wrong', '%s: sent %r want %r (one item per element, or one comma-joined item)', typ, got, want)
+        if o.ok != 1 or cfg.needs_save():
+            return R('accepted-save-did-not-settle', '%r', o.exc())
+    except Exception as e:
+        return R('exception', '%s: %s: %s', typ, type(e).__name__, e)
+    reached()
+    return ''
+
+
+@cond(quick=dict(budget=150))
+def c10_types(ti: int, op: int) -> str:
+    """one option of every type name txtorcon has a parser for (incl. the sub-types SignedInteger, Port, TimeInterval, DataSize, Filename,
+    TimeIntervalCommaList): a change made to it is noticed and carried by the next save"""
+    ti = api.pick(ti, 0, len(ALL_TYPES) - 1)
+    op = api.pick(op, 0, 4)
+    with api.no_tracing():
+        return _one_type(ti, op)
